@@ -30,11 +30,42 @@ def run(ctx):
                  ("C15-R4", "allocate() (re)points the id at the entity and moves the counter past an explicit id")]:
         ctx.rule(r, t)
     for cfg in (["F"] if ctx.tier == "quick" else ["F", "FN"]):
-        facts = ctx.facts(cfg)
+        facts = ctx.xfacts(cfg)
         r1(ctx, facts)
         r2(ctx, facts)
         r3(ctx, facts)
         r4(ctx, facts)
+
+
+def ret_variants(b, r):
+    """variants (Some / None / ...) the returned Option / Result can have at return block r, by the definitions of _0 reaching it"""
+    out = set()
+    rd, entry = b.reaching_defs(0, b.end(r))
+    for bb, idx in rd:
+        if idx < 0:
+            c = b.term(bb)["callee"]
+            if c.get("path") == "std::ops::FromResidual::from_residual":
+                out.add("None" if "option::Option" in b.ltype.get(0, "").split("<")[0] else "Err")
+            else:
+                out.add("?")
+            continue
+        st = b.blocks[bb]["stmts"][idx]
+        rv = st["rv"]
+        if st["dst"]["proj"]:
+            out.add("?")
+        elif rv["k"] == "aggregate" and rv.get("variant"):
+            out.add(rv["variant"])
+        elif rv["k"] == "use":
+            o = b.operand_origin(rv["ops"][0], at=(bb, idx))
+            alts = o[2] if o[0] == "phi" else (o,)
+            for a in alts:
+                if a[0] == "agg":
+                    out.add(b.blocks[a[1]]["stmts"][a[2]]["rv"].get("variant") or "?")
+                else:
+                    out.add("?")
+        else:
+            out.add("?")
+    return out
 
 
 def r1(ctx, facts):
@@ -42,31 +73,51 @@ def r1(ctx, facts):
     ctx.anchor("C15-R1", "MarkerAllocator::mark (provided)", b)
     if not b:
         return
-    direct = [bb for bb, t in b.calls() if t["callee"].get("path") == ALLOC]
-    ctx.ob("C15-R1", "mark() never allocates unconditionally", not direct, b.loc(), "" if not direct else "allocate() called directly in mark() at %s: an existing marker would be replaced" % [b.loc(x) for x in direct])
-    ok = False
-    why = "no or_insert_with closure allocating the marker"
-    for bid, i, rv, cb in closure_bodies_in(facts, b):
-        al = [(cbb, ct) for cbb, ct in cb.calls() if ct["callee"].get("path") == ALLOC]
-        if not al:
+    allocs = [(bb, t) for bb, t in b.real_calls() if t["callee"].get("path") == ALLOC]
+    ctx.anchor("C15-R1", "mark() can allocate a marker", allocs)
+    # every allocation happens inside a closure that is handed to StorageEntry::or_insert_with (which runs it for a vacant entry only)
+    fed = {}
+    for bb, t in b.real_calls():
+        if t["callee"].get("name") == "or_insert_with" and "StorageEntry" in t["callee"].get("path", ""):
+            co = b.arg_origin(bb, 1)
+            if co[0] == "agg":
+                fed[b.blocks[co[1]]["stmts"][co[2]]["rv"].get("closure")] = bb
+    direct, ok, why = [], bool(allocs), "mark() never allocates"
+    for bb, t in allocs:
+        stack = b.blocks[bb].get("stack") or (b.path,)
+        inside = [p for p in stack if p in fed]
+        if not inside:
+            direct.append(b.loc(bb))
             continue
-        fed = [bb for bb, t in b.calls() if t["callee"].get("name") in ("or_insert_with",) and "StorageEntry" in t["callee"].get("path", "") and
-               b.arg_origin(bb, 1) == ("agg", bid, i, ())]
-        none_id = all(cb.arg_origin(cbb, 2)[0] in ("agg", "const") for cbb, ct in al)
-        ent = all(facts.root_origin(cb, cb.arg_origin(cbb, 1))[1] == ("param", 2, ()) for cbb, ct in al)
-        ok = bool(fed) and none_id and ent
-        why = "" if ok else "allocating closure is handed to or_insert_with: %s; allocates a fresh id (None): %s; for the entity being marked: %s" % (bool(fed), none_id, ent)
-    ctx.ob("C15-R1", "mark() allocates only in the vacant-entry closure", ok, b.loc(), why)
-    entries = [bb for bb, t in b.calls() if t["callee"].get("name") == "entry" and "storage::" in t["callee"].get("path", "")]
+        none_id = b.arg_origin(bb, 2)[0] in ("agg", "const")
+        ent = b.arg_origin(bb, 1) == ("param", 2, ())
+        if not (none_id and ent):
+            ok = False
+            why = "the vacant-entry closure allocates a fresh id (None): %s; for the entity being marked: %s" % (none_id, ent)
+    ctx.ob("C15-R1", "mark() never allocates unconditionally", not direct, b.loc(),
+           "" if not direct else "allocate() is called in mark() at %s outside a closure handed to StorageEntry::or_insert_with: an existing marker would be replaced" % direct)
+    ctx.ob("C15-R1", "mark() allocates only in the vacant-entry closure", ok and not direct, b.loc(), "" if ok and not direct else why)
+    entries = [bb for bb, t in b.real_calls() if t["callee"].get("name") == "entry" and "storage::" in t["callee"].get("path", "")]
     ves = b.variant_edges(lambda so: so[0] == "call" and so[1] in entries and not so[2])
-    okn = False
-    for ve in ves:
-        err = ve["edges"].get("Err")
-        nones = [d for d in b.defs().get(0, []) if d[0] == "stmt" and d[4]["k"] == "aggregate" and d[4].get("variant") == "None"]
-        somes = [d for d in b.defs().get(0, []) if d[0] == "stmt" and d[4]["k"] == "aggregate" and d[4].get("variant") == "Some"]
-        if err and nones and somes:
-            okn = all(d[1] not in b.reachable(0, removed={err}) for d in nones) and all(d[1] not in b.reachable(err[1]) for d in somes)
-    ctx.ob("C15-R1", "mark() returns None exactly for a dead entity", okn, b.loc(), "" if okn else "None/Some not decided by the Err edge of storage.entry(entity)")
+    errs = {ve["edges"]["Err"] for ve in ves if "Err" in ve["edges"]}
+    okn = bool(errs)
+    whyn = "" if okn else "no match on the result of storage.entry(entity)"
+    if okn:
+        live_no_err = b.reachable(0, removed=errs)
+        after_err = set()
+        for e in errs:
+            after_err |= b.reachable(e[1])
+        for r in b.returns():
+            if r not in b.live_blocks():
+                continue
+            vs = ret_variants(b, r)
+            if "?" in vs:
+                okn, whyn = "undetermined", "cannot tell which variant mark() returns at %s" % b.loc(r)
+            if "None" in vs and r in live_no_err and vs == {"None"}:
+                okn, whyn = False, "mark() can return None for an entity whose entry() lookup succeeded (a live entity)"
+            if "Some" in vs and vs == {"Some"} and r in after_err and r not in live_no_err:
+                okn, whyn = False, "mark() returns Some on the Err edge of storage.entry(entity) (a dead entity)"
+    ctx.ob("C15-R1", "mark() returns None exactly for a dead entity", okn, b.loc(), whyn)
 
 
 def r2(ctx, facts):
@@ -141,31 +192,36 @@ def r3(ctx, facts):
         for sbb, org, tv, other in b.switch_edges():
             if org[0] == "discr" and org[1][0] == "param" and org[1][1] == 3 and len(org[1][2]) == 1:
                 pos_sw.setdefault(int(org[1][2][0]), []).append((sbb, org, tv, other))
-        firsts = []
-        for k, lst in pos_sw.items():
-            # the deciding switch of a position dominates the later (drop-elaboration) re-tests of the same component
-            lst.sort(key=lambda x: -sum(1 for y in lst if y[0] in b.reachable(x[0])))
-            firsts.append((k,) + lst[0])
-        deciding = {x[1] for x in firsts}
-        for k, sbb, org, tv, other in sorted(firsts):
-            so = org[1]
-            seen_pos.add(k)
+        def member_calls(k, name):
+            # member k is identified by the receiver (field k of the storage tuple); inside an inlined generic helper the callee's
+            # self type is the helper's type parameter
+            return [bb for bb, t in b.real_calls() if t["callee"].get("path") == "storage::generic::GenericWriteStorage::" + name
+                    and b.arg_origin(bb, 0)[:3] == ("param", 1, (str(k),)) and b.arg_origin(bb, 1) == ("param", 2, ())]
+
+        def arms(sbb, tv, other):
             names = b._variant_names_for_switch(sbb)
-            some_t = [t_ for v, t_ in tv.items() if names.get(v) == "Some"] or [other]
-            none_t = [t_ for v, t_ in tv.items() if names.get(v) == "None"] or [other]
-            ins = [bb for bb, t in b.calls() if t["callee"].get("path") == "storage::generic::GenericWriteStorage::insert" and t["callee"].get("self_ty") == ms[k]
-                   and b.arg_origin(bb, 0)[:3] == ("param", 1, (str(k),)) and b.arg_origin(bb, 1) == ("param", 2, ())]
-            rem = [bb for bb, t in b.calls() if t["callee"].get("path") == "storage::generic::GenericWriteStorage::remove" and t["callee"].get("self_ty") == ms[k]
-                   and b.arg_origin(bb, 0)[:3] == ("param", 1, (str(k),)) and b.arg_origin(bb, 1) == ("param", 2, ())]
-            # the error path of convert_from (`?`) may leave early: goals are returns reached without a Try::branch Break
-            conv = [bb for bb, t in b.calls() if t["callee"].get("path") == "saveload::ConvertSaveload::convert_from" and
+            return ([t_ for v, t_ in tv.items() if names.get(v) == "Some"] or [other])[0], ([t_ for v, t_ in tv.items() if names.get(v) == "None"] or [other])[0]
+        all_sw = {x[0] for lst in pos_sw.values() for x in lst}
+        # the deciding switch of a position is the one whose Some arm converts that component (the others are drop-elaboration
+        # re-tests of the same component); after path splitting there can be several copies of it
+        deciding = {}
+        for k, lst in pos_sw.items():
+            conv = [bb for bb, t in b.real_calls() if t["callee"].get("path") == "saveload::ConvertSaveload::convert_from" and
                     b.arg_origin(bb, 0) == ("param", 3, (str(k), "as Some", "0"))]
-            ok_i = bool(ins) and bool(conv) and all(any(b.depends_on_call(b.arg_origin(i, 2), c) for c in conv) for i in ins) and \
-                all(x not in b.reachable(none_t[0], stop=[sb_ for sb_ in deciding if sb_ != sbb]) for x in ins)
-            ok_r = bool(rem) and b.must_pass(none_t[0], rem, goals=[sb_ for sb_ in deciding if sb_ != sbb] + b.returns())[0]
-            if not (ok_i and ok_r):
-                ok = False
-                why = "position %d: present -> insert(member %d, entity, convert_from(component %d)): %s; absent -> remove(member %d, entity) on every path: %s" % (k, k, k, ok_i, k, ok_r)
+            deciding[k] = [(x, conv) for x in lst if any(c in b.reachable(arms(x[0], x[2], x[3])[0], stop=all_sw - {x[0]}) for c in conv)]
+        dblocks = {x[0][0] for k in deciding for x in deciding[k]}
+        for k in sorted(deciding):
+            ins, rem = member_calls(k, "insert"), member_calls(k, "remove")
+            for (sbb, org, tv, other), conv in deciding[k]:
+                seen_pos.add(k)
+                some_t, none_t = arms(sbb, tv, other)
+                stop = [x for x in dblocks if x != sbb]
+                ok_i = bool(ins) and bool(conv) and all(any(b.depends_on_call(b.arg_origin(i, 2), c) for c in conv) for i in ins) and \
+                    all(x not in b.reachable(none_t, stop=stop) for x in ins)
+                ok_r = bool(rem) and b.must_pass(none_t, rem, goals=stop + b.returns())[0]
+                if not (ok_i and ok_r):
+                    ok = False
+                    why = "position %d: present -> insert(member %d, entity, convert_from(component %d)): %s; absent -> remove(member %d, entity) on every path: %s" % (k, k, k, ok_i, k, ok_r)
         if seen_pos != set(range(len(ms))):
             ok = False
             why = why or "positions handled %s of %d" % (sorted(seen_pos), len(ms))
